@@ -146,7 +146,7 @@ def run_pool_case(case):
             chunks[e[0][1:]] = chunks.get(e[0][1:], 0) + 1
     return dict(ready_ok=state.get("ready_ok", True), chunks=chunks, events=events, results=results, deadlock=sc.deadlock, step_limit=sc.step_limit, exc=exc,
                 unfinished=[n for n in sc.unfinished if n != "main"], main_done=main.finished and sc.main_exc is None,
-                left_payload=left_payload, left_tokens=left_tokens, lifelog=lifelog, nlog=len(sc.log_entries))
+                left_payload=left_payload, left_tokens=left_tokens, lifelog=lifelog, nlog=len(sc.log_entries), cand_trace=sc.cand_trace)
 
 
 def to_events(log, factory, nworkers):
